@@ -324,3 +324,19 @@ func FuzzC28(f *testing.F) {
 		}
 	})
 }
+
+func TestC28Regression(t *testing.T) {
+	st := vstat.New(t, "C28", "regression: wrong-length payloads (0, 3, 32, 34, 40 bytes) with a valid checksum, each with/without 0x and in either case (fix F6)")
+	for _, n := range []int{0, 3, 32, 34, 40} {
+		p := make([]byte, n)
+		for i := range p {
+			p[i] = byte(i + 1)
+		}
+		for _, prefix := range []bool{true, false} {
+			for _, upper := range []bool{false, true} {
+				c := c28Case{Mode: "payload", Payload: p, Prefix: prefix, Upper: upper}
+				vstat.Run(t, st, c, func() error { return c28Run(c, st) })
+			}
+		}
+	}
+}
